@@ -282,9 +282,15 @@ func (g *genCtx) historySpec(earlier []string) ProgSpec {
 	if g.r.p(0.3) {
 		opts = append(opts, COpt{Kind: "exp"})
 	}
-	opts = append(opts, COpt{Kind: "fn", Name: name, Fn: pick(g.r, []string{"ident", "empty", "const"})})
-	if g.r.p(0.2) {
-		opts = append(opts, COpt{Kind: "fn", Name: name, Fn: "ident"}) // duplicate in one list
+	first := COpt{Kind: "fn", Name: name, Fn: pick(g.r, []string{"ident", "ident", "empty", "const"})}
+	opts = append(opts, first)
+	if g.r.p(0.25) {
+		// duplicate in one list - half of the time the very same option (with reuse: the same VALUE twice)
+		dup := COpt{Kind: "fn", Name: name, Fn: "ident"}
+		if g.r.p(0.5) {
+			dup = first
+		}
+		opts = append(opts, dup)
 	}
 	if g.r.p(0.3) {
 		opts = append(opts, COpt{Kind: "exp"})
@@ -295,6 +301,15 @@ func (g *genCtx) historySpec(earlier []string) ProgSpec {
 	src := name + "()"
 	if g.r.p(0.3) {
 		src = "Patient.name." + name + "()"
+	}
+	if g.r.p(0.12) {
+		// a failing option list that carries the experimental functions or a custom function under
+		// an experimental name: nothing of it may survive into the next Compile
+		opts = append([]COpt{{Kind: "exp"}}, opts...)
+		if g.r.p(0.5) {
+			opts = append([]COpt{{Kind: "fn", Name: "join", Fn: "const"}}, opts...)
+		}
+		opts = append(opts, COpt{Kind: "fn", Name: pick(g.r, []string{"where", "exists", name}), Fn: "ident"})
 	}
 	if g.r.p(0.15) {
 		// a Compile that fails in the parser or the visitor: nothing of it may survive into later Compiles
@@ -321,6 +336,7 @@ func genC04(seed uint64, run int, tier string) *Case {
 	c.Knobs.GCEvery = pick(g.r, []int{0, 0, 0, 0, 23, 101})
 	c.Knobs.MidCompile = pick(g.r, []int{0, 0, 3, 11, 29})
 	c.Knobs.NoSched = g.r.p(0.08)
+	c.Knobs.ReuseOpts = g.r.p(0.5)
 	g.genResources(1 + g.r.n(3))
 	g.genVars(g.r.n(4), 0.2)
 	g.stdCallbacks()
